@@ -4,3 +4,4 @@ import DDProofs.Ext
 import DDProofs.Inv
 import DDProofs.RefCount
 import DDProofs.GcStep
+import DDProofs.GcLoop
